@@ -246,6 +246,10 @@ theorem bindText_peq (e : BEnv) (cfg : ParserConfig) (m : XmlMeta) (xn : Option 
     · simp only [c1, if_true]
       exact ⟨rfl, h, rfl⟩
     · simp only [c1, Bool.false_eq_true, if_false]
+      by_cases c3 : (decide (xn = some true) && (t.isNone || decide (t = some [])) && var.tokens) = true
+      · simp only [c3, if_true]
+        exact ⟨rfl, h, rfl⟩
+      simp only [c3, Bool.false_eq_true, if_false]
       by_cases c2 : (decide (xn = some true) && (t.isNone || decide (t = some []))) = true
       · simp only [c2, if_true]
         exact bindText_jp_peq e var h _
@@ -276,6 +280,7 @@ def attrStep (e : BEnv) (cfg : ParserConfig) (m : XmlMeta) (nsmap : NsMap) (acc 
     if var.init then return (params.set var.name r.val, warns)
     else do validateFixed e.py var.toVarCore r.val; return (params, warns)
   | none =>
+    if qname = xsiType || qname = xsiNil then return (params, warns) else
     match m.findAnyAttributes qname with
     | some var =>
       let cur := match params.get var.name with
@@ -332,11 +337,24 @@ theorem attrStep_eq (e : BEnv) (cfg : ParserConfig) (m : XmlMeta) (hA : m.anyAtt
   obtain ⟨q, v⟩ := kv
   unfold attrStep chooseAct
   simp only [findAnyAttributes_nil m hA]
-  have hunk : (if (cfg.failOnUnknownAttributes && decide (targetUri q ≠ some xsiNs)) = true then
+  have hunk0 : (if (cfg.failOnUnknownAttributes && decide (targetUri q ≠ some xsiNs)) = true then
         (throw (Err.parser "Unknown attribute") : Except Err (Params × Nat)) else pure (p, n)) =
       runAct (unkAct cfg q) (p, n) := by
     unfold unkAct
     split <;> rfl
+  -- the control attributes `xsi:type` / `xsi:nil` are skipped before the lookup, like unknown `xsi:` ones
+  have hunk : (if (decide (q = xsiType) || decide (q = xsiNil)) = true then (pure (p, n) : Except Err (Params × Nat))
+      else if (cfg.failOnUnknownAttributes && decide (targetUri q ≠ some xsiNs)) = true then
+        (throw (Err.parser "Unknown attribute") : Except Err (Params × Nat)) else pure (p, n)) =
+      runAct (unkAct cfg q) (p, n) := by
+    by_cases hq : (decide (q = xsiType) || decide (q = xsiNil)) = true
+    · simp only [hq, if_true]
+      have hx : targetUri q = some xsiNs := by
+        simp only [Bool.or_eq_true, decide_eq_true_eq] at hq
+        rcases hq with h | h <;> (rw [h]; decide)
+      simp [unkAct, hx, runAct, pure, Except.pure]
+    · simp only [hq, Bool.false_eq_true, if_false]
+      exact hunk0
   cases hf : m.findAttribute q with
   | none => simpa using hunk
   | some var =>
